@@ -86,6 +86,9 @@ def parseInstr : Sexp → Option Instr
   | .list [.atom "jumpIfTrueOrPop", .atom n] => n.toNat?.map .jumpIfTrueOrPop
   | .list [.atom "popJumpIfFalse", .atom n] => n.toNat?.map .popJumpIfFalse
   | .list [.atom "jumpForward", .atom n] => n.toNat?.map .jumpForward
+  | .list [.atom "getIter"] => some .getIter
+  | .list [.atom "forIter", .atom n] => n.toNat?.map .forIter
+  | .list [.atom "jumpBackward", .atom n] => n.toNat?.map .jumpBackward
   | .list [.atom "binaryOp", .atom op] => (parseBinOp op).map .binaryOp
   | .list [.atom "compareOp", .atom op] => (parseCmpOp op).map .compareOp
   | .list [.atom "call", .atom n] => n.toNat?.map .call
@@ -114,6 +117,9 @@ def instrS : Instr → String
   | .jumpIfTrueOrPop n => "(jumpIfTrueOrPop " ++ toString n ++ ")"
   | .popJumpIfFalse n => "(popJumpIfFalse " ++ toString n ++ ")"
   | .jumpForward n => "(jumpForward " ++ toString n ++ ")"
+  | .getIter => "(getIter)"
+  | .forIter n => "(forIter " ++ toString n ++ ")"
+  | .jumpBackward n => "(jumpBackward " ++ toString n ++ ")"
   | .binaryOp op => "(binaryOp " ++ binS op ++ ")"
   | .compareOp op => "(compareOp " ++ cmpS op ++ ")"
   | .call n => "(call " ++ toString n ++ ")"
